@@ -899,6 +899,83 @@ def oracle_scene(seed, sid, grid_n=9):
 IDENT_F = [[1.0, 0.0, 0.0], [0.0, 1.0, 0.0], [0.0, 0.0, 1.0]]
 
 
+# ------------------------------------------------------------------ rectangular arrays (C19)
+def _array(origin_cell, n, w, rng, kinds="CT", subs=None):
+    """grid with n[ax] cells of width w[ax]; the lower corner of cell `origin_cell` is the frame origin."""
+    grid = [[float((i - origin_cell[ax]) * w[ax]) for i in range(n[ax] + 1)] for ax in range(3)]
+    cells = []
+    for i in range(n[0]):
+        for j in range(n[1]):
+            for k in range(n[2]):
+                if (i, j, k) == tuple(origin_cell):
+                    cells.append(["C"])                      # corner-anchored at the origin: zero offset
+                elif subs and rng.random() < 0.5:
+                    cells.append(["A", rng.choice(subs)])
+                else:
+                    cells.append([rng.choice(kinds)])
+    return {"grid": grid, "cells": cells}
+
+
+def _array_input(name, arrays, rng, place=None):
+    ext = max(max(abs(v) for v in ax) for ax in arrays[0]["grid"])
+    place = place if place is not None else [float(rng.randint(-2, 2)) for _ in range(3)]
+    half = float(ext + 4)
+    return {"name": name, "arrays": arrays, "place": place, "world": [half, half, half + 1]}
+
+
+def array_inputs(seed):
+    """Specs of hand-constructed OrangeInput values (harness/vbuild.cc ArrayInputBuilder): a global unit holding a
+    rectangular array of 1-3 cells per axis whose frame origin sits at the lower corner of EVERY cell in turn (so
+    the daughter with zero offset = NoTransformation appears at every flattened index, among Translation
+    daughters), centred variants, nested arrays, and seeded random ones."""
+    rng = random.Random(seed * 104729 + 7)
+    out = []
+    shapes = [(1, 1, 1), (2, 1, 1), (1, 3, 1), (1, 1, 2), (2, 2, 1), (3, 1, 2), (2, 2, 2), (3, 3, 1), (3, 2, 2)]
+    for n in shapes:
+        w = [rng.choice([2, 3, 4]) for _ in range(3)]
+        for i in range(n[0]):
+            for j in range(n[1]):
+                for k in range(n[2]):
+                    a = _array((i, j, k), n, w, rng)
+                    out.append(_array_input("array%dx%dx%d_origin%d%d%d" % (n + (i, j, k)), [a], rng,
+                                            place=[0.0, 0.0, 0.0] if rng.random() < 0.3 else None))
+    # grids straddling the origin: a centred daughter in the centre cell has zero offset
+    for n in [(1, 1, 1), (3, 1, 1), (3, 3, 1), (1, 3, 3)]:
+        w = [rng.choice([2, 4]) for _ in range(3)]
+        grid = [[float(i * w[ax] - n[ax] * w[ax] / 2) for i in range(n[ax] + 1)] for ax in range(3)]
+        cells = [["T"] if rng.random() < 0.7 else ["C"] for _ in range(n[0] * n[1] * n[2])]
+        cells[len(cells) // 2] = ["T"]
+        out.append(_array_input("array%dx%dx%d_centred" % n, [{"grid": grid, "cells": cells}], rng))
+    # nested arrays: the outer cells hold inner arrays (re-centred so that zero offsets occur at both levels)
+    for t in range(6):
+        wi = [rng.choice([1, 2]) for _ in range(3)]
+        ni = (rng.randint(1, 2), rng.randint(1, 2), rng.randint(1, 2))
+        no = (rng.randint(1, 3), rng.randint(1, 2), 1)
+        inner = []
+        for q in range(2):
+            oc = (rng.randrange(ni[0]), rng.randrange(ni[1]), rng.randrange(ni[2])) if q else (0, 0, 0)
+            inner.append(_array(oc, ni, wi, rng))
+        wo = [ni[ax] * wi[ax] for ax in range(3)]
+        oc = (rng.randrange(no[0]), rng.randrange(no[1]), 0)
+        outer = _array(oc, no, wo, rng, kinds="C", subs=[1, 2])
+        # the origin cell of the outer array holds the inner array whose frame starts at its own corner: zero offset
+        o_idx = (oc[0] * no[1] + oc[1]) * no[2]
+        outer["cells"][o_idx] = ["A", 1]
+        others = [c for c in range(len(outer["cells"])) if c != o_idx]
+        if others:
+            outer["cells"][rng.choice(others)] = ["A", 2]       # every inner array is used
+        else:
+            inner = inner[:1]
+        out.append(_array_input("nested%d" % t, [outer] + inner, rng))
+    # seeded random ones
+    for t in range(10):
+        n = (rng.randint(1, 3), rng.randint(1, 3), rng.randint(1, 3))
+        w = [rng.choice([1, 2, 3, 5]) for _ in range(3)]
+        oc = (rng.randrange(n[0]), rng.randrange(n[1]), rng.randrange(n[2]))
+        out.append(_array_input("random%d" % t, [_array(oc, n, w, rng)], rng))
+    return out
+
+
 def sample_slabs(scenes, keep, seed):
     """Probe only `keep` of the z-slabs of every scene (always including the middle one)."""
     rng = random.Random(seed)
